@@ -172,7 +172,7 @@ def module_text(classes, hook=False):
         for m, t in ms:
             if t:
                 out.append('    @tag')
-            if (len(m) + len(n)) % 3 == 0:
+            if (ord(m[-1]) + ord(n[-1])) % 3 == 0:
                 # another decorator between the tag (if any) and the function: the tag is the outer one
                 out.append('    @_wrapped')
             out.append('    def %s(self): _log(type(self).__name__ + %r)' % (m, '.' + m))
